@@ -34,6 +34,17 @@ CHECKS.append(
      "note": "Trusted: TLC, sha1 content digests as the equality oracle, fork() isolation. Menu of 47 concrete calls; cbs/flasso (R) "
              "and coverage (see C09) not in the menu. Pool interleavings are explored in the model only; the real pool is exercised "
              "with 1/2/3/16 workers."})
+CHECKS.append(
+    {"id": "C09", "level": "model_checking",
+     "technique": "TLA+ spec (Coverage.tla, integers) + TLC-enumerated reads replayed through real BAM/BED files + TLC trace validation of synthetic BAM runs",
+     "design_ref": "DESIGN.md section 8 C09",
+     "text": "Coverage.tla defines counted reads, aligned reference blocks from the CIGAR, bases in a bin, depth = bases/length, the null "
+             "value, the chunk partition and equality of the table across worker counts/chunk sizes; TLC enumerates single reads "
+             "(position x CIGAR shape x flag x MAPQ) against every bin of a short contig, each state is replayed by writing a real BAM/BED "
+             "and running do_coverage (both algorithms, several process/chunk settings), and seeded synthetic BAMs are judged the same way.",
+     "note": "Trusted: TLC, pysam writing the BAM the harness describes, 12-digit fixed-point encoding of depth and 2**log2. CRAM/--fasta "
+             "path and pileup depth on reads with indels are outside the claim. Pool schedules are not controlled; the real pool is run "
+             "with 1/2/3/16 workers and lowered chunk sizes."})
 
 _ALL = [f"C{n:02d}" for n in range(1, 21)]
 _claimed = {c["id"] for c in CHECKS}
